@@ -31,7 +31,10 @@ def generate(api):
     api.grab(t, r"let default_key = GroupKey \{\s*prehash: 0,", rel, "columnar default key has prehash 0")
     rel = "src/engine/core/read/sink/aggregate/finalization.rs"
     t = api.src(rel)
-    api.grab(t, r"partial_groups\.insert\(pk, vec_states\);", rel, "into_partial inserts (overwrites) per partial key")
+    api.grab(t, r"match partial_groups\.entry\(pk\) \{\s*Entry::Vacant\(e\) => \{\s*e\.insert\(vec_states\);", rel,
+             "into_partial: insert when the partial key is new")
+    api.grab(t, r"Entry::Occupied\(mut e\) => \{\s*let existing = e\.get_mut\(\);\s*if existing\.len\(\) == vec_states\.len\(\) \{\s*for \(a, b\) in existing\.iter_mut\(\)\.zip\(vec_states\.iter\(\)\) \{\s*a\.merge\(b\);",
+             rel, "into_partial: merge (AggState::merge) when the partial key is already there")
     rel = "src/engine/core/read/flow/operators/agg/column_converter.rs"
     t = api.src(rel)
     api.grab(t, r"\.all\(\|v\| matches!\(v, ScalarValue::Int64\(_\) \| ScalarValue::Null\)\)", rel,
